@@ -20,7 +20,21 @@ FORBIDDEN = re.compile(
     r"\bsorry\b|\badmit\b|^\s*axiom\s|native_decide|bv_decide|implemented_by|\bunsafe\s|maxHeartbeats\s+0\b",
     re.M,
 )
-ENV = dict(os.environ, CARGO_NET_OFFLINE="true")
+SCRATCH = VERIF / ".scratch"
+ANY_TARGET = HARNESS / "target-any"
+ENV = dict(os.environ, CARGO_NET_OFFLINE="true", VERIF_ANY_BIN=str(ANY_TARGET / "debug" / "any"),
+           VERIF_XDG=str(SCRATCH / "xdg-cli"), NO_COLOR="1")
+
+
+def build_any_binary(release=False):
+    """Build the repository's own `any` binary (hooks off) from the working tree."""
+    with Lock("cargo"):
+        cmd = ["cargo", "build", "--offline", "--bin", "any", "--manifest-path", str(REPO / "Cargo.toml"),
+               "--target-dir", str(ANY_TARGET)] + (["--release"] if release else [])
+        env = dict(ENV)
+        env.pop("RUSTFLAGS", None)
+        rc, out, err = run(cmd, cwd=str(REPO), timeout=1800, env=env)
+    return rc == 0, (out + err)[-2000:]
 
 
 def hexs(s: str) -> str:
@@ -232,7 +246,7 @@ def db_lines_for(query_lines):
     """For `query` protocol lines: ask the model which phrases may be looked up,
     resolve them on the real database (harness `lookup`), and return the `db`
     header lines that give the model's abstract database the same answers."""
-    qs = [l for l in query_lines if l.startswith("query ")]
+    qs = [l for l in query_lines if l.startswith("query ") or l.startswith("cli ")]
     if not qs:
         return []
     rc, out, err = run_lines(driver_bin(), ["phrases " + l.split(" ")[1] for l in qs], timeout=1200)
